@@ -98,7 +98,9 @@ pub struct WebCase {
     pub foreign_task: Option<Strat>,
 }
 
-const POLL_LIMIT: Duration = Duration::from_secs(120);
+// longer than the service's own time limit for a task (120 s): a task that never finishes ends up as a stored
+// "deadline has elapsed" error, which for these small problems is a wrong answer, not a slow one
+const POLL_LIMIT: Duration = Duration::from_secs(150);
 
 /// poll GET /adf/{name} until `slot` is filled. A slot that stays empty for 8 s although its task
 /// is not (no longer) listed as running is a lost result (violation); a slot still empty after
@@ -228,7 +230,14 @@ fn check_entry(
             continue;
         }
         let lab = g.labels.get(&x).ok_or_else(|| format!("{what}: node {x} is reachable from a root but not part of the graph"))?;
-        let leaf = lab == "TOP" || lab == "BOT";
+        // the constants are the handles 0 and 1 (a statement may itself be called TOP or BOT: its decision nodes have edges)
+        let leaf = x == "0" || x == "1";
+        if leaf && lab != if x == "1" { "TOP" } else { "BOT" } {
+            return Err(format!("{what}: the constant node {x} is labelled {lab:?}"));
+        }
+        if !leaf && !labels.iter().any(|l| l == lab) {
+            return Err(format!("{what}: node {x} is labelled {lab:?}, which is no statement"));
+        }
         match (g.lo.get(&x), g.hi.get(&x)) {
             (None, None) if leaf => {}
             (Some(l), Some(h)) if !leaf => {
@@ -259,9 +268,9 @@ fn check_entry(
     }
     // shown interpretation
     let shown: Interp = (0..n)
-        .map(|s| match g.labels[root_of[s].as_ref().unwrap()].as_str() {
-            "TOP" => Tv::T,
-            "BOT" => Tv::F,
+        .map(|s| match root_of[s].as_ref().unwrap().as_str() {
+            "1" => Tv::T,
+            "0" => Tv::F,
             _ => Tv::U,
         })
         .collect();
@@ -279,10 +288,10 @@ fn check_entry(
             let mut steps = 0;
             let val = loop {
                 let lab = &g.labels[&cur];
-                if lab == "TOP" {
+                if cur == "1" {
                     break true;
                 }
-                if lab == "BOT" {
+                if cur == "0" {
                     break false;
                 }
                 let v = labels.iter().position(|l| l == lab).ok_or_else(|| format!("{what}: node label {lab:?} is no statement"))?;
